@@ -227,6 +227,16 @@ class Explorer:
             finally:
                 Mutable.trail = None
                 self.cur = None
+                # module-level objects (and shared default arguments) go back to their state before the path: every
+                # path starts from the repository's import state
+                from .values import GLOBAL_OBJS
+                for idx in range(len(ctx.trail.log) - 1, -1, -1):
+                    obj, key, old = ctx.trail.log[idx]
+                    if id(obj) in GLOBAL_OBJS and idx not in ctx.trail.loading:
+                        try:
+                            obj._loc_set_raw(key, old)
+                        except Exception:  # noqa
+                            pass
             STATS.paths += 1
             if len(results) + len(self.pending) > self.max_paths:
                 raise Unsupported('path explosion (> %d paths)' % self.max_paths)
